@@ -64,10 +64,11 @@ type Prop struct {
 	V string `json:"v"`
 }
 
-// Profile is a (not activated) Maven profile.
+// Profile is a Maven profile (not activated unless Active).
 type Profile struct {
-	ID   string `json:"id"`
-	Deps []MDep `json:"deps,omitempty"`
+	ID     string `json:"id"`
+	Deps   []MDep `json:"deps,omitempty"`
+	Active bool   `json:"active,omitempty"` // <activeByDefault>: merged into the requirements
 }
 
 // Pom is the dependency-relevant part of a pom.xml.
@@ -416,6 +417,9 @@ func renderPom(p *Pom, isParent, hasParent bool) []byte {
 		b.WriteString("  <profiles>\n")
 		for _, pf := range p.Profiles {
 			b.WriteString("    <profile>\n      <id>" + pf.ID + "</id>\n")
+			if pf.Active {
+				b.WriteString("      <activation>\n        <activeByDefault>true</activeByDefault>\n      </activation>\n")
+			}
 			renderDeps(&b, "      ", pf.Deps)
 			b.WriteString("    </profile>\n")
 		}
@@ -481,7 +485,11 @@ func (w *World) describe() string {
 			}
 			for _, pf := range p.Profiles {
 				for _, d := range pf.Deps {
-					parts = append(parts, "profile "+pf.ID+" "+d.Name()+"@"+d.V)
+					act := ""
+					if pf.Active {
+						act = "(active)"
+					}
+					parts = append(parts, "profile "+pf.ID+act+" "+d.Name()+"@"+d.V)
 				}
 			}
 			return strings.Join(parts, "; ")
